@@ -44,6 +44,18 @@ class MyInt(int):
     pass
 
 
+class MyFloat(float):
+    pass
+
+
+class MyTimedelta(datetime.timedelta):
+    pass
+
+
+class MyDatetime(datetime.datetime):
+    """(what pendulum.DateTime, freezegun's FakeDatetime, pandas.Timestamp are: subclasses of the bound type)"""
+
+
 def member_int(name: str, v: object) -> bool | None:
     """None = not decided by the property (bool, see DESIGN section 5.3)."""
     if isinstance(v, bool):
@@ -230,6 +242,7 @@ def floats(c: Ctx, rng, nrand: int, deterministic: bool) -> None:  # noqa: ANN00
                       1, 0, -1, 2**53, True, False, "1.0", None, decimal.Decimal("1.5"), fractions.Fraction(3, 2), 1.5 + 0j, b"1.0"]
         for v in nonmembers:
             c.probe("f64", v, False)
+        vals += [MyFloat(1.5), MyFloat(-0.0), MyFloat(1.7976931348623157e308), MyFloat("inf"), MyFloat("nan")]  # instances of a subclass of the bound type
     for _ in range(nrand):
         vals.append(struct.unpack(">d", rng.getrandbits(64).to_bytes(8, "big"))[0])
     for v in vals:
@@ -266,6 +279,8 @@ def durations(c: Ctx, rng, nrand: int, deterministic: bool) -> None:  # noqa: AN
                     vals.append(TD(microseconds=rng.randint(TD.min // US, TD.max // US)))
                 except OverflowError:
                     pass
+        if deterministic:
+            vals += [MyTimedelta(milliseconds=5), MyTimedelta(0), MyTimedelta(days=-1, microseconds=1000), MyTimedelta(milliseconds=2**31 + 5)]
         for v in vals:
             m = member_td(v, (lo, hi))
             a = c.probe(name, v, m)
@@ -321,6 +336,8 @@ def timestamps(c: Ctx, rng, nrand: int, deterministic: bool) -> None:  # noqa: A
                  D.max.replace(tzinfo=UTC), D.max.replace(tzinfo=UTC, microsecond=0), D(1970, 1, 1, 14, tzinfo=tzs[1]), D(1970, 1, 1, 13, 59, 59, tzinfo=tzs[1])]
         for v in (0, 1.0, "2024-01-01", None, datetime.date(2024, 1, 1), datetime.time(1, 2, tzinfo=UTC), TD(0), True):
             c.probe("TZAware", v, False)
+        vals += [MyDatetime(2024, 5, 28, 12, 31, 7, 123000, tzinfo=UTC), MyDatetime(2024, 5, 28, 12, 31, 7, 123456, tzinfo=UTC), MyDatetime(2024, 5, 28, 12, 31, 7),
+                 MyDatetime(1969, 12, 31, 23, 59, 59, tzinfo=UTC), MyDatetime(1970, 1, 1, tzinfo=tzs[1])]
     for _ in range(nrand):
         ms = rng.randint(-1000, gen.DT_MAX) if rng.random() < 0.8 else rng.randint(-5000, 5000)
         us = rng.choice((0, 0, 0, 1, 500, 999, rng.randint(0, 999)))
